@@ -269,3 +269,43 @@ proof fn lemma_u_top_no_sd_alg(p: Seq<(Seq<char>, J)>, dm: DM)
         if let UR::Ok(J::Obj(o2), c) = u_val(J::Obj(p), dm, Set::empty()) { lemma_remove_key_gone(o2, K_SD_ALG()); }
     }
 }
+
+// ---- no over-refusal: an Err of the algorithm on a prefix is an Err on the whole list ----
+proof fn lemma_u_arr_err_prefix(a: Seq<J>, dm: DM, seen: SS, n: int)
+    requires 0 <= n <= a.len(), u_arr(a.take(n), dm, seen) is Err
+    ensures u_arr(a, dm, seen) is Err
+    decreases a.len() - n
+{
+    if n == a.len() { assert(a.take(n) =~= a); } else {
+        assert(a.take(n + 1).drop_last() =~= a.take(n));
+        lemma_u_arr_err_prefix(a, dm, seen, n + 1);
+    }
+}
+proof fn lemma_u_members_err_prefix(m: Seq<(Seq<char>, J)>, dm: DM, seen: SS, n: int)
+    requires 0 <= n <= m.len(), u_members(m.take(n), dm, seen) is Err
+    ensures u_members(m, dm, seen) is Err
+    decreases m.len() - n
+{
+    if n == m.len() { assert(m.take(n) =~= m); } else {
+        assert(m.take(n + 1).drop_last() =~= m.take(n));
+        lemma_u_members_err_prefix(m, dm, seen, n + 1);
+    }
+}
+proof fn lemma_u_digests_err_prefix(ds: Seq<J>, dm: DM, seen: SS, out0: Seq<(Seq<char>, J)>, n: int)
+    requires 0 <= n <= ds.len(), u_digests(ds.take(n), dm, seen, out0) is Err
+    ensures u_digests(ds, dm, seen, out0) is Err
+    decreases ds.len() - n
+{
+    if n == ds.len() { assert(ds.take(n) =~= ds); } else {
+        assert(ds.take(n + 1).drop_last() =~= ds.take(n));
+        lemma_u_digests_err_prefix(ds, dm, seen, out0, n + 1);
+    }
+}
+proof fn lemma_jv_seq_take(s: Seq<Value>, n: int)
+    requires 0 <= n <= s.len()
+    ensures jv_seq(s.take(n)) == jv_seq(s).take(n)
+{ lemma_jv_seq(s); lemma_jv_seq(s.take(n)); assert(jv_seq(s.take(n)) =~= jv_seq(s).take(n)); }
+proof fn lemma_jv_entries_take(s: Seq<(String, Value)>, n: int)
+    requires 0 <= n <= s.len()
+    ensures jv_entries(s.take(n)) == jv_entries(s).take(n)
+{ lemma_jv_entries(s); lemma_jv_entries(s.take(n)); assert(jv_entries(s.take(n)) =~= jv_entries(s).take(n)); }
